@@ -277,6 +277,17 @@ Example C19_ex_creation :
   create_trading_base ex_now 18446744074 None = Err.
 Proof. vm_compute. repeat split; reflexivity. Qed.
 
+(* the base minter's default has no genesis term: created 1000 s BEFORE the genesis mint time
+   (1647032400 s) without a trading time, the collection gets creation time + offset, which is
+   earlier than genesis + offset; the bounded families default to mint start + offset whatever
+   the clock is *)
+Example C19_ex_base_default_before_genesis :
+  create_trading_base 1647031400000000000 604800 None = Ok 1647636200000000000 /\
+  1647636200000000000 < 1647032400000000000 + 604800 * 1000000000 /\
+  create_trading_fam FBase 1647031400000000000 1647034400000000000 604800 None = Ok 1647636200000000000 /\
+  create_trading_fam FVending 1647031400000000000 1647034400000000000 604800 None = Ok 1647639200000000000.
+Proof. vm_compute. repeat split; reflexivity. Qed.
+
 (* a history on the two-contract world: the creator and a stranger call the collection
    directly (ignored), the admin schedules trading, moves the mint start 90 s earlier,
    then the old bound is refused; the collection shows the one accepted value *)
@@ -342,3 +353,4 @@ Theorem C19_migrate_keeps_trading_time : forall vr now name_ok stored admin s s'
 Proof. exact migrate_trading. Qed.
 
 Print Assumptions C19_migrate_keeps_trading_time.
+Print Assumptions C19_ex_base_default_before_genesis.
